@@ -159,14 +159,14 @@ Qed.
 Lemma script_comment_run zs b fuel r : loop fuel script_comment_body (zs, b) = Ok r ->
   match r with
   | inl z' => samele zs z'
-  | inr z' => samele zs z' /\ (at_end z' = true \/ end_tag_weak html_hash_Script (lbuf zs) (lpos z'))
+  | inr z' => samele zs z' /\ (at_end z' = true \/ end_tag_at html_hash_Script (lbuf zs) (lpos z'))
   end.
 Proof.
   intros H.
   refine (loop_inv (fun s => samele zs (fst s))
             (fun r => match r with
                       | inl z' => samele zs z'
-                      | inr z' => samele zs z' /\ (at_end z' = true \/ end_tag_weak html_hash_Script (lbuf zs) (lpos z'))
+                      | inr z' => samele zs z' /\ (at_end z' = true \/ end_tag_at html_hash_Script (lbuf zs) (lpos z'))
                       end) script_comment_body _ _ (zs, b) r _ H); [|apply samele_refl].
   clear. intros [s ins] x Hs Hx. cbn [fst] in Hs. unfold script_comment_body in Hx.
   destruct (pkr s 0) as [c| |] eqn:E0; cbn [rbind] in Hx; try discriminate.
@@ -186,20 +186,23 @@ Proof.
     assert (Hsz2 : samele zs z2).
     { eapply samele_trans; [exact Hs|]. eapply samele_trans; [apply (samele_mv s (if c1 =? 47 then 2 else 1)); destruct (c1 =? 47); lia|].
       split; assumption. }
-    destruct (h =? html_hash_Script) eqn:EhS.
-    - destruct (negb (c1 =? 47)) eqn:En; [injection Hx as <-; exact Hsz2|].
-      apply negb_false_iff in En. rewrite En in *.
-      destruct (negb ins); injection Hx as <-; [|exact Hsz2].
-      assert (Hpos : lpos (rewind z2 (mark (mv s 2) - 2)) = lpos s).
-      { unfold rewind, mark. cbn [mv lpos lstart]. destruct Hs2 as [_ Hst2]. cbn [mv lstart] in Hst2. lia. }
-      split.
-      { split; [eapply same_trans; [apply Hsz2|apply same_rewind]|]. rewrite Hpos. apply Hs. }
-      right.
-      assert (Hmk : mark (mv s 2) = mark s + 2) by (unfold mark; cbn; lia). rewrite Hmk in Eh.
-      b2p. subst c c1 h.
-      destruct (end_tag_here html_hash_Script s z2 html_hash_Script Hp0 Hp1 El Eh) as (cs & _ & Hm & _).
-      destruct Hs as [[Hb _] _]. rewrite <- Hb. rewrite Hpos. apply Hm; reflexivity.
-    - injection Hx as <-. exact Hsz2. }
+    destruct (h =? html_hash_Script) eqn:EhS; [|injection Hx as <-; exact Hsz2].
+    destruct (pkr z2 0) as [cz| |] eqn:Ecz; cbn [rbind] in Hx; try discriminate.
+    assert (Hpz : pk z2 0 = Some cz) by (unfold pkr in Ecz; destruct (pk z2 0); cbn in Ecz; congruence).
+    destruct (is_tagend cz || eof0 z2 cz) eqn:Efol; [|injection Hx as <-; exact Hsz2].
+    destruct (negb (c1 =? 47)) eqn:En; [injection Hx as <-; exact Hsz2|].
+    apply negb_false_iff in En. rewrite En in *.
+    destruct (negb ins); injection Hx as <-; [|exact Hsz2].
+    assert (Hpos : lpos (rewind z2 (mark (mv s 2) - 2)) = lpos s).
+    { unfold rewind, mark. cbn [mv lpos lstart]. destruct Hs2 as [_ Hst2]. cbn [mv lstart] in Hst2. lia. }
+    split.
+    { split; [eapply same_trans; [apply Hsz2|apply same_rewind]|]. rewrite Hpos. apply Hs. }
+    right.
+    assert (Hmk : mark (mv s 2) = mark s + 2) by (unfold mark; cbn; lia). rewrite Hmk in Eh.
+    apply Z.eqb_eq in E60, En, EhS. subst c c1 h.
+    destruct (end_tag_here html_hash_Script s z2 html_hash_Script Hp0 Hp1 El Eh) as (cs & Hcs & _ & Hm & _).
+    rewrite Hpz in Hcs. injection Hcs as <-.
+    destruct Hs as [[Hb _] _]. rewrite <- Hb. rewrite Hpos. apply Hm; [reflexivity|exact Efol]. }
   destruct (eof0 s c) eqn:Ee; injection Hx as <-.
   - split; [exact Hs|]. left. unfold eof0 in Ee. b2p. assumption.
   - cbn [fst]. eapply samele_trans; [exact Hs|apply samele_mv; lia].
@@ -212,16 +215,14 @@ Proof. intros H1 H2 p Hp. destruct (Z.lt_ge_cases p b); [apply H1|apply H2]; lia
 
 Lemma rawtext_loop_run c raw z has fuel r : loop fuel (rawtext_body c raw) (z, has) = Ok r ->
   same z (fst r) /\ lpos z <= lpos (fst r) /\
-  (at_end (fst r) = true \/ end_tag_at raw (lbuf z) (lpos (fst r)) \/
-   (raw = html_hash_Script /\ end_tag_weak raw (lbuf z) (lpos (fst r)))) /\
+  (at_end (fst r) = true \/ end_tag_at raw (lbuf z) (lpos (fst r))) /\
   (has_delims c = false -> raw <> html_hash_Script -> nomatch raw (lbuf z) (lpos z) (lpos (fst r))).
 Proof.
   intros H.
   refine (loop_inv (fun s => same z (fst s) /\ lpos z <= lpos (fst s) /\
                              (has_delims c = false -> raw <> html_hash_Script -> nomatch raw (lbuf z) (lpos z) (lpos (fst s))))
             (fun r => same z (fst r) /\ lpos z <= lpos (fst r) /\
-                      (at_end (fst r) = true \/ end_tag_at raw (lbuf z) (lpos (fst r)) \/
-                       (raw = html_hash_Script /\ end_tag_weak raw (lbuf z) (lpos (fst r)))) /\
+                      (at_end (fst r) = true \/ end_tag_at raw (lbuf z) (lpos (fst r))) /\
                       (has_delims c = false -> raw <> html_hash_Script -> nomatch raw (lbuf z) (lpos z) (lpos (fst r))))
             (rawtext_body c raw) _ _ (z, has) r _ H); [|split; [apply same_refl|split; [cbn; lia|intros _ _ p Hp; cbn in Hp; lia]]].
   clear H r. intros [s h0] x (Hs & Hle & Hnm) Hx. cbn [fst] in *. unfold rawtext_body in Hx.
@@ -251,7 +252,7 @@ Proof.
         * assert (Hpos : lpos (rewind z2 (mark s)) = lpos s).
           { unfold rewind, mark. cbn [lpos]. destruct Hs2 as [_ Hst2]. cbn [mv lstart] in Hst2. lia. }
           split; [eapply same_trans; [exact Hs|eapply same_trans; [apply same_mv|eapply same_trans; [exact Hs2|apply same_rewind]]]|].
-          rewrite Hpos. split; [lia|]. split; [right; left; apply Hm; [b2p; assumption|reflexivity]|exact Hnm].
+          rewrite Hpos. split; [lia|]. split; [right; apply Hm; [b2p; assumption|reflexivity]|exact Hnm].
         * split; [apply Hcont|]. split; [apply Hcont|].
           intros Hd Hr. eapply nomatch_app; [apply Hnm; assumption|]. intros p Hp. apply Hnf; [reflexivity|exact Hp].
       + injection Hx as <-; cbn [fst]. split; [apply Hcont|]. split; [apply Hcont|].
@@ -273,7 +274,7 @@ Proof.
         * destruct Hr2 as [[Hr2 Hr2le] He]. cbn [mv lpos] in Hr2le.
           split; [eapply same_trans; [exact Hs|eapply same_trans; [apply same_mv|exact Hr2]]|].
           split; [lia|]. split; [|intros _ Hr; congruence].
-          destruct He as [He|He]; [left; exact He|right; right]. cbn [mv lbuf] in He. rewrite Hb in He. split; [exact Hraw|]. rewrite Hraw. exact He.
+          destruct He as [He|He]; [left; exact He|right]. cbn [mv lbuf] in He. rewrite Hb in He. rewrite Hraw. exact He.
       + injection Hx as <-. cbn [fst]. split; [eapply same_trans; [exact Hs|apply same_mv]|]. cbn [mv lpos]. split; [lia|].
         apply Hstep1. right. eauto. }
   destruct (tmpl_at c s) as [t| |] eqn:Et; cbn [rbind] in Hx; try discriminate.
